@@ -413,14 +413,18 @@ impl<Store: StorageData> DbImpl<Store> {
         &mut self,
         f: impl FnOnce(&mut TransactionMut<Store>) -> Result<T, E>,
     ) -> Result<T, E> {
+        let storage_transaction = self.storage.transaction();
         let mut transaction = TransactionMut::new(&mut *self);
         let result = f(&mut transaction);
 
-        if result.is_ok() {
-            transaction.commit()?;
+        let finished = if result.is_ok() {
+            transaction.commit()
         } else {
-            transaction.rollback()?;
-        }
+            transaction.rollback()
+        };
+
+        self.storage.commit(storage_transaction)?;
+        finished?;
 
         result
     }
